@@ -115,9 +115,17 @@ func NewSubscriberWithConcurrencyMode[T any](destination Observer[T], mode Concu
 // newSubscriberImpl creates a new subscriber implementation with the specified
 // synchronization behavior and destination observer.
 func newSubscriberImpl[T any](mode ConcurrencyMode, mu xsync.Mutex, backpressure Backpressure, destination Observer[T]) Subscriber[T] {
-	// Protect against multiple encapsulation layers.
+	// Protect against multiple encapsulation layers. A subscriber that does not
+	// serialize its producers cannot stand in for a safe one, though: operators that
+	// hand their destination upstream (StartWith, TapOnSubscribe, TapOnFinalize,
+	// Defer, Catch...) are built with the unsafe constructor, and reusing their
+	// subscriber below a safe stage (Merge, Serialize, ObserveOn...) would let the
+	// callbacks of the downstream observer overlap.
 	if subscriber, ok := destination.(Subscriber[T]); ok {
-		return subscriber
+		impl, isImpl := subscriber.(*subscriberImpl[T])
+		if !isImpl || mode != ConcurrencyModeSafe || impl.mode == ConcurrencyModeSafe {
+			return subscriber
+		}
 	}
 
 	subscriber := &subscriberImpl[T]{
